@@ -12,8 +12,6 @@ open Model
 open Glue
 open Ffsrun
 
-let fixed = true   (* the repaired Assemble (fixes/C03-assemble-empty-volume.diff) *)
-
 let split_colon (s : string) : string list = String.split_on_char ':' s
 
 let op_of_token (t : string) : op option =
@@ -64,7 +62,7 @@ let obs_edit (img : z list) (ops : op list) : string =
        (match go 0 elems cops with
         | Either.Right s -> s
         | Either.Left elems' ->
-          (match asm_bios_v enc s2u fixed elems' (z_of_int len) (pol, false) with
+          (match asm_bios enc s2u elems' (z_of_int len) (pol, false) with
            | Ok ((_, b), _) -> "ok " ^ hex_of_bytes b
            | Err _ -> "err-save"
            | Panic _ -> "panic"
